@@ -865,6 +865,7 @@ class ThreadsSim(Simulator):
     def stub_components(self, prop):
         return ["thread choice: baton scheduler decides at every sys.monitoring LINE/INSTRUCTION event in the package's "
                 "own code objects which thread runs next (real threads, parked and released one at a time)",
+                "threading.Lock / RLock created by the library: scheduler-aware SimLock (a blocked client hands the baton on)",
                 "oracle process: fresh fork of the zygote per distinct query"]
 
     def assumptions(self, prop):
